@@ -161,7 +161,7 @@ pub fn run(cfg: &Cfg) -> (&'static str, Report, String, String) {
     let nrand = cfg.by(10, 300, 4000);
     let rnd = par_for(cfg, nrand, |i, r| {
         let mut rng = Rng::new(cfg.seed.wrapping_mul(1_000_003).wrapping_add(i as u64));
-        let s = random_string(&mut rng, &WIDE, cfg.by(6, 24, 40));
+        let s = random_string(&mut rng, &WIDE, if i % 8 == 7 { cfg.by(20, 200, 300) } else { cfg.by(6, 24, 40) });
         let len = s.len();
         // random strings are long: sample index pairs instead of the full square
         let idx = hostile_indices(len, 1);
